@@ -1020,6 +1020,8 @@ RECIPES += [
     ("C03", "break", ["C03-R9"], S, _FRF_TAIL_ALL, _FRF_RETURN_LIST.replace("    if return_srs_frq:\n        out.append(srs_frq)\n", "").replace("    if len(out) == 1:", "    if return_srs_frq:\n        out.append(srs_frq)\n    if len(out) == 1:"), "srs_frf: list assembled in the wrong order"),
     ("C03", "neutral", [], S, "def _rmsmeth(resp):\n    return np.sqrt((resp**2).mean(axis=0))\n", "def _rmsmeth(resp):\n    nsteps = resp.shape[0]\n    return np.sqrt(np.sum(np.square(resp), axis=0) / nsteps)\n", "_rmsmeth: sum of np.square over the number of rows"),
     ("C03", "break", ["C03-R8"], S, "def _rmsmeth(resp):\n    return np.sqrt((resp**2).mean(axis=0))\n", "def _rmsmeth(resp):\n    nsteps = resp.shape[1]\n    return np.sqrt(np.sum(np.square(resp), axis=0) / nsteps)\n", "_rmsmeth: divided by the number of signals"),
+    ("C03", "break", ["C03-R4"], S, _IC_SERIAL, _IC_SERIAL.replace('resp["hist"][:, :, j] = resphist[S:]', 'resp["hist"][:, :, j] = resphist[M:]'), "srs: steady-state branch stores the residual window only"),
+    ("C03", "break", ["C03-R4"], S, _IC_SERIAL, _IC_SERIAL.replace("SRSmax[j] = methfunc(resphist[S:])", "SRSmax[j] = methfunc(resphist)"), "srs: steady-state branch takes the peak over the whole response"),
     ("C03", "neutral", [], S, "def _absmeth(resp):\n    return abs(resp).max(axis=0)\n", "def _absmeth(resp):\n    return np.fabs(resp).max(0)\n", "_absmeth: np.fabs, positional axis"),
     ("C03", "break", ["C03-R8"], S, "def _absmeth(resp):\n    return abs(resp).max(axis=0)\n", "def _absmeth(resp):\n    return np.fabs(resp).max(1)\n", "_absmeth: peak over the signals"),
 ]
